@@ -131,6 +131,11 @@ pub struct Monitors {
     changed_after_list: bool,
     poll_outstanding: bool,
     poisoned: BTreeMap<[u8; 32], String>,
+    /// last injected read fault (hash, context); a todo!() panic is attributed to that hash
+    /// injected read faults on the restart path (listsendpays / waitsendpay before any pay of the lifecycle) that
+    /// have not yet been matched with the todo!() panic they lead to, oldest first
+    last_read_fault: std::collections::VecDeque<([u8; 32], String)>,
+    todo_hashes: BTreeMap<[u8; 32], String>,
     /// RPCs of a hash that have arrived and are not yet answered, in event order
     outstanding: BTreeMap<[u8; 32], i32>,
     grid_at_restart: u64,
@@ -177,6 +182,8 @@ impl Monitors {
             changed_after_list: false,
             poll_outstanding: false,
             poisoned: BTreeMap::new(),
+            last_read_fault: std::collections::VecDeque::new(),
+            todo_hashes: BTreeMap::new(),
             outstanding: BTreeMap::new(),
             grid_at_restart: 0,
             todo_panics: 0,
@@ -667,6 +674,11 @@ impl Monitors {
                 let is_todo = msg.contains("not yet implemented");
                 if is_todo {
                     self.todo_panics += 1;
+                    // the todo!() sits behind a failed wait_payment on the restart path: the lifecycle that
+                    // panicked is the one whose read was just failed
+                    if let Some((h, ctx)) = self.last_read_fault.pop_front() {
+                        self.todo_hashes.insert(h, ctx);
+                    }
                 }
                 self.v("C06", "task_panicked", format!("a plugin task panicked: {msg}"), json!({"where": "task", "todo": is_todo}));
             }
@@ -837,6 +849,9 @@ impl Monitors {
                             // call site: inside wait_payment after this lifecycle's pay, or on the restart path before any pay
                             format!("read_fault:{method}:{}", if after_pay { "after_pay" } else { "restart_path" })
                         };
+                        if d.starts_with("read_fault:") && d.ends_with(":restart_path") && !self.last_read_fault.iter().any(|x| x.0 == *h) {
+                            self.last_read_fault.push_back((*h, d.clone()));
+                        }
                         self.fault_ctx.insert(*h, d);
                         if let Some(t) = self.tracks.get_mut(h) {
                             t.lc.tainted = true;
@@ -1053,8 +1068,9 @@ impl Monitors {
             if delivered[h] && answered[h].is_none() {
                 self.stats.hung += 1;
                 let hash = self.info[h].hash;
-                let ctx = self.fault_ctx.get(&hash).cloned().unwrap_or_else(|| "none".into());
-                let panicked = self.todo_panics > 0 && self.stats.panics == self.todo_panics;
+                // root cause first: if this hash's lifecycle died in the known todo!(), the fault that led there
+                let ctx = self.todo_hashes.get(&hash).cloned().unwrap_or_else(|| self.fault_ctx.get(&hash).cloned().unwrap_or_else(|| "none".into()));
+                let panicked = self.todo_hashes.contains_key(&hash) && self.stats.panics == self.todo_panics;
                 self.v(
                     "C06",
                     "htlc_never_answered",
